@@ -16,7 +16,7 @@ func (b BudgetExceeded) Error() string { return "loop budget exceeded at " + b.S
 
 var (
 	seqTicks  int64
-	SeqBudget int64 = 2000000
+	SeqBudget int64 = 200000
 )
 
 // ResetTicks is called by the sequential harness at each transport call.
